@@ -1,5 +1,6 @@
 import StepModel.P21.ReaderLemmas2
 import StepModel.P21.LexNumber
+import StepModel.P21.LexGap
 /-! Aggregates of simple kinds at the literal level (C09; shared with C01): `STEPaggregate::ReadValue` — the model
 `aggrRead` / `aggrLoop` / `elemRead` of `P21/Reader.lean` — on `( e₁ , … , eₙ )` for *any* element kind whose element
 reader accepts its tokens, any layout (blanks, comments) around every element; the empty aggregate; and the element
@@ -1847,5 +1848,37 @@ theorem elemCore_ref_sound_any (env : Env F) (tg : String) (l : List Byte) (c : 
   subst ho
   refine ⟨hkeep, spx, tok, sp2, sp3, ?_, hsx, hb2, hb3, htok, hlo, hhi, hfound, hv.symm, hat3⟩
   rw [hsplit, hr3]; simp
+
+/-! ### the layouts of the spec (`Grammar.ExactLayout` / `Gap`) are layouts of C01's `Seps` -/
+
+theorem noClose_NoClose : ∀ (p : Byte) (body : List Byte), noClose p body = true → NoClose (p :: body)
+  | _, [], _ => trivial
+  | p, c :: t, h => by
+    simp only [noClose, Bool.and_eq_true, Bool.not_eq_true', Bool.and_eq_false_iff] at h
+    refine ⟨?_, noClose_NoClose c t h.2⟩
+    intro ⟨h1, h2⟩
+    rcases h.1 with hx | hx
+    · simp [h1] at hx
+    · simp [h2] at hx
+
+theorem seps_cons_blank (c : Byte) (m : List Byte) (hc : isSpace c = true) (h : Seps m) : Seps (c :: m) := by
+  cases h with
+  | blanks sp hsp => exact Seps.blanks _ (by simp [hc, hsp])
+  | comment sp body t hsp hb ht =>
+    have := Seps.comment (c :: sp) body t (by simp [hc, hsp]) hb ht
+    simpa using this
+
+theorem exactLayout_seps : ∀ {sp : List Byte}, ExactLayout sp → Seps sp
+  | _, .nil => Seps.blanks [] (by simp)
+  | _, .blank hc hm => seps_cons_blank _ _ hc (exactLayout_seps hm)
+  | _, .comment (body := body) hb hm => by
+    have hnc : NoClose body := (noClose_NoClose 0 body hb).tail
+    have := Seps.comment [] body _ (by simp) hnc (exactLayout_seps hm)
+    simpa using this
+
+theorem gap_seps {cfg : LexCfg} (hcfg : cfg.criSkipsComments = true) {sp : List Byte} (h : Gap cfg sp) : Seps sp := by
+  unfold Gap at h
+  rw [if_pos hcfg] at h
+  exact exactLayout_seps h
 
 end StepModel.P21.AggrLemmas
